@@ -525,11 +525,15 @@ func Wedged(stderr string) (bool, string) {
 			if strings.Contains(l, "server.ServeSingleHTTP") {
 				serving = true
 			}
+			if strings.HasPrefix(l, "created by ") && strings.Contains(l, ".init") {
+				daemon = true // started by a package initialiser: a process-lifetime service loop
+			}
 		}
 		if first == "" {
 			continue // no server code on this stack
 		}
-		parked := strings.HasPrefix(state, "chan ") || strings.HasPrefix(state, "semacquire") || strings.HasPrefix(state, "sync.") || strings.HasPrefix(state, "select (no cases)")
+		// (a goroutine that has sat in a select for minutes - an event loop nobody feeds - is as inert as one on a channel)
+		parked := strings.HasPrefix(state, "chan ") || strings.HasPrefix(state, "semacquire") || strings.HasPrefix(state, "sync.") || strings.HasPrefix(state, "select")
 		long := strings.Contains(state, "minutes")
 		if serving {
 			if !(parked && long) {
